@@ -15,6 +15,8 @@
 #include <functional>
 #include <sstream>
 #include <unistd.h>
+#include <signal.h>
+#include <sys/time.h>
 #include "../shim/vshim.h"
 
 namespace vf {
@@ -230,6 +232,27 @@ inline void install_death(const Args &a) {
 #endif
 }
 
+// Watchdog: a validation that does not return.  A profiling timer ticks every `tick` seconds of CPU time *of this
+// process* (machine load does not count); when three consecutive ticks see no finished evaluation, the process writes the
+// in-flight case and exits with code 78.  Inputs are at most 64 KiB outside the `huge` stages, where a validation takes
+// microseconds to milliseconds: 30 s of CPU time inside one call is not "work linear in the input" by any reading.
+#ifdef VF_HAVE_DEATH_CB
+inline const volatile uint64_t *&wd_progress() { static const volatile uint64_t *p = nullptr; return p; }
+inline void wd_tick(int) {
+    static uint64_t last = ~(uint64_t) 0; static int idle = 0;
+    const volatile uint64_t *p = wd_progress(); if (!p) return;
+    if (*p == last) { if (++idle >= 3) { on_death(); static const char m[] = "WATCHDOG: no evaluation finished within three CPU-time ticks\n"; if (write(2, m, sizeof m - 1)) {} _exit(78); } }
+    else { last = *p; idle = 0; }
+}
+inline void install_watchdog(const uint64_t *progress, int tick_s) {
+    wd_progress() = progress;
+    struct sigaction sa; memset(&sa, 0, sizeof sa); sa.sa_handler = wd_tick; sa.sa_flags = SA_RESTART; sigaction(SIGPROF, &sa, nullptr);
+    struct itimerval it; it.it_interval.tv_sec = tick_s; it.it_interval.tv_usec = 0; it.it_value = it.it_interval; setitimer(ITIMER_PROF, &it, nullptr);
+}
+#else
+inline void install_watchdog(const uint64_t *, int) {}
+#endif
+
 // exit codes of a harness process: 0 ok, 3 oracle failure(s) recorded, 2 infra / health
 inline int finish(Run &R) {
     R.write();
@@ -307,6 +330,7 @@ inline int std_main(int argc, char **argv, const char *pid, const std::map<std::
     Run R; R.a = parse_args(argc, argv); R.prop = pid;
     install_death(R.a);
     inflight() = infl;
+    install_watchdog(&R.evaluations, R.a.stage == "huge" || R.a.stage == "stack" ? 60 : 10);
     if (init && !init(R)) { fprintf(stderr, "%s: harness initialisation failed\n", pid); return 2; }
     int rcode;
     if (!R.a.replay.empty()) {
